@@ -275,8 +275,8 @@ def _c06_row(scn):
     steps = sum(1 for e in ctx.trace if e["k"] == "SB")
     if o["r"] == "ok":
         out = "accepted"
-    elif o["r"] == "ScenarioError" and "contains cycles" in o["msg"]:
-        out = "ScenarioError"
+    elif o["r"] == "ScenarioError":
+        out = "ScenarioError"  # (whatever the wording: run() refused the scenario before it started)
     else:
         out = "other"
     path = re.findall(r"sid='(\w+)'", o["msg"]) if out == "ScenarioError" else []
